@@ -29,7 +29,8 @@ def model_len(run, obj):
     return run.ghost[k]
 
 
-UNROLL_CLASSES = {'LpPacketValue', 'LpPacket', 'NetworkNack', 'CertificateV2Value', 'CertificateV2SignatureInfo', 'ValidityPeriod'}
+UNROLL_CLASSES = {'LpPacketValue', 'LpPacket', 'NetworkNack', 'CertificateV2Value', 'CertificateV2SignatureInfo', 'ValidityPeriod',
+                  'ControlParameters', 'ControlParametersValue'}
 
 
 def is_plain_model(val):
@@ -113,6 +114,7 @@ class name_from_str(Contract):
         seq = BufSeq.fresh(cx.run, 'from_str', 'bytearray')
         cx.run.assume(seq.total() < 2 ** 32)
         cx.run.ghost[('from_str', id(val))] = seq
+        cx.run.ghost.setdefault('from_str_calls', []).append((val, seq, seq.n))      # text, result, its length at creation
         return seq
 
 
